@@ -36,6 +36,7 @@ type Pipe struct {
 	writeCalls  int
 	alwaysFail  error
 	closeCount  int
+	closeErr    error // returned by Close (FailClose); the pipe closes all the same
 	closed      bool
 	readsIssued int
 	active      int           // Write calls currently inside the transport
@@ -186,9 +187,17 @@ func (p *Pipe) Close() error {
 	p.mu.Lock()
 	p.closeCount++
 	p.closed = true
+	err := p.closeErr
 	p.mu.Unlock()
 	p.cond.Broadcast()
-	return nil
+	return err
+}
+
+// FailClose makes Close report err (a device that is already gone when it gets closed).
+func (p *Pipe) FailClose(err error) {
+	p.mu.Lock()
+	p.closeErr = err
+	p.mu.Unlock()
 }
 
 // CloseCount returns how often Close was called.
